@@ -25,7 +25,8 @@ MANIFEST = {
     "numpy ints of every width, numpy.bool_, float, float16/32/64 incl. +-inf and NaN), about the numeric branches "
     "regenerated from utils/__init__.py on every run: C38_shape (same keys, same lengths, leaves stay leaves), "
     "C38_leaves + C38_in_range (every int-typed output leaf is within +-(2**53-1); every float output leaf is finite or "
-    "NaN; every integral-valued float output leaf that comes from a FINITE input leaf is within +-(2**53-1)), "
+    "NaN; every integral-valued float output leaf that comes from a FINITE input leaf is within +-(2**53-1); hypothesis "
+    "`ieeeLike`, true of every binary16/32/64 float), C38_no_infinite_output (no output leaf is +-inf, no hypothesis), "
     "C38_safe_unchanged (all leaves in range => output equals the input up to list-ification of sequences and "
     ".item() of 0-d arrays, leaf types and values untouched), C38_int_conversion_guarded (int(data) is only evaluated "
     "where it cannot raise).  Reading made explicit: +-inf becomes the float +-1.7976e308, which is finite (float clause) "
